@@ -151,10 +151,11 @@ def _form_template(form):
     t = _templates.get('form:' + form)
     if t is None:
         t = HTML('<dtml-in seq start=pstart size=psize orphan=porphan '
-                 'overlap=poverlap %s><dtml-var %s-sequence-start-number>,'
+                 'overlap=poverlap %s><dtml-if %s-sequence>1<dtml-else>0'
+                 '</dtml-if>:<dtml-var %s-sequence-start-number>,'
                  '<dtml-var %s-sequence-end-number>,<dtml-var '
                  '%s-sequence-size><dtml-else>NONE</dtml-in>'
-                 % (form, form, form, form))
+                 % (form, form, form, form, form))
         _templates['form:' + form] = t
     return t
 
@@ -200,7 +201,11 @@ def render_form(form, L, start, size, orphan, overlap):
                                psize=size, porphan=orphan, poverlap=overlap)
     if out == 'NONE':
         return None
-    return [int(x) for x in out.split(',')]
+    flag, _, nums = out.partition(':')
+    if flag != '1':
+        # inside the form's body <form>-sequence itself is true
+        return ['%s-sequence is false' % form, out]
+    return [int(x) for x in nums.split(',')]
 
 
 def render_var(L, start, end, size, orphan, overlap, as_str=False):
